@@ -78,7 +78,8 @@ func cfgS3(prop string, seed uint64, tier string) *RunCfg {
 		n = 10 + r.Intn(30)
 	}
 	prof := []string{"valid-sw", "mixed-sw", "refs", "samerow", "index"}[r.Intn(5)]
-	c.Knobs["client_writer"] = r.Intn(2) // transactions go through a real client (read-your-writes)
+	c.Knobs["client_writer"] = r.Intn(2)
+	c.Slow = slowClasses(r, ".mon", "handleRequest", "cache:", "/client:") // transactions go through a real client (read-your-writes)
 	for i := 0; i < n; i++ {
 		p := prof
 		if i < 3 {
@@ -115,7 +116,7 @@ func cfgS3(prop string, seed uint64, tier string) *RunCfg {
 				ms.Delay = 1 + r.Intn(80)
 			}
 			if ms.Concurrent && r.Intn(2) == 0 {
-				ms.Burst = 1 + r.Intn(3)
+				ms.Burst = 1 + r.Intn(4)
 			}
 			ms.Method = []string{"monitor", "monitor_cond", "monitor_cond_since"}[r.Intn(3)]
 			for _, tn := range part {
@@ -458,7 +459,7 @@ func runS3(e *Env, cfg *RunCfg) {
 				e.Probes["monitor_concurrent_with_txn"]++
 				e.Probes["monitor_started_mid_txn"]++
 				for b := 0; b < m.Burst; b++ {
-					calls = append(calls, s.issue(i, txn, txn.GenSeed+uint64(1+b+10*k), "samerow"))
+					calls = append(calls, s.issue(i, txn, txn.GenSeed+uint64(1+b+10*k), []string{"hot", "hot", "samerow"}[(b+k)%3]))
 					e.Probes["writer_burst_txn"]++
 				}
 			}
@@ -505,6 +506,19 @@ func (s *s3) issue(i int, txn TxnSpec, seed uint64, profile string) *RawCall {
 	}
 	g := NewGen(e.Sch, seed, before, ProfileByName(profile), fmt.Sprintf("t%d_%d", i, seed%97))
 	ops, _ := g.Txn()
+	if profile == "hot" {
+		// every transaction of a burst rewrites the same cells of one row with a value of its own:
+		// any reordering or loss on the way to a cache leaves a visibly wrong final value
+		ops = nil
+		for _, tn := range e.Sch.TableNames {
+			if us := SortedKeys(before[tn]); len(us) > 0 {
+				ops = append(ops, Op{"op": "update", "table": tn, "where": []any{[]any{"_uuid", "==", []any{"uuid", us[0]}}}, "row": map[string]any{"rank": int(seed % 100000), "note": fmt.Sprintf("v%d", seed%100000)}})
+			}
+		}
+		if ops == nil {
+			ops, _ = g.Txn()
+		}
+	}
 	ops = NormalizeOps(ops)
 	e.Logf("txn %d (%s, pipelined): %s", i, profile, trimStr(string(mustJSON(ops)), 800))
 	params := []any{s.db}
